@@ -3,6 +3,7 @@ package main
 import (
 	"bytes"
 	"fmt"
+	"time"
 
 	"github.com/google/uuid"
 	iec "github.com/nspcc-dev/neofs-node/internal/ec"
@@ -92,6 +93,23 @@ func sessionToken(authKey neofscrypto.PublicKey, issuer user.Signer) session.Obj
 	return t
 }
 
+func sessionTokenV2(issuer user.Signer) sessionv2.Token {
+	var t sessionv2.Token
+	t.SetVersion(sessionv2.TokenCurrentVersion)
+	at := time.Unix(1_800_000_000, 0)
+	t.SetIat(at)
+	t.SetNbf(at)
+	t.SetExp(at.Add(1000 * time.Hour))
+	ctx, err := sessionv2.NewContext(cidREP, []sessionv2.Verb{sessionv2.VerbObjectPut})
+	must(err)
+	must(t.SetContexts([]sessionv2.Context{ctx}))
+	must(t.SetSubjects([]sessionv2.Target{sessionv2.NewTargetUser(sessionSigner.UserID())}))
+	must(t.Sign(issuer))
+	var chk sessionv2.Token
+	must(chk.Unmarshal(t.Marshal())) // must survive the wire
+	return t
+}
+
 func fullParent(cnr [32]byte, payload []byte, extra ...object.Attribute) object.Object {
 	p := hdr(cnr)
 	p.SetAttributes(append([]object.Attribute{object.NewAttribute("FileName", "parent.bin")}, extra...)...)
@@ -141,6 +159,18 @@ func buildBases() []*base {
 	o.SetChildren(idFrom("prev"), idFrom("self"))
 	seal(&o, whole[5:], ownerSigner)
 	add("v1-last-child", o, ownerSigner, 0)
+
+	o = hdr(cidREP) // v2 middle member: first + previous links, no parent header
+	o.SetFirstID(idFrom("first"))
+	o.SetPreviousID(idFrom("prev"))
+	seal(&o, whole[2:5], ownerSigner)
+	add("v2-middle-child", o, ownerSigner, 0)
+
+	o = hdr(cidREP) // v1 middle member
+	o.SetSplitID(object.NewSplitIDFromV2(uuid4(7)))
+	o.SetPreviousID(idFrom("prev"))
+	seal(&o, whole[2:5], ownerSigner)
+	add("v1-middle-child", o, ownerSigner, 0)
 
 	rawPar := hdr(cidREP) // v2 first child carries the unfinished parent header
 	rawPar.SetAttributes(object.NewAttribute("FileName", "parent.bin"))
@@ -381,7 +411,7 @@ func buildMutations() []mutation {
 		o.SetType(object.TypeStorageGroup) //nolint:staticcheck
 	})
 	legit("both-session-tokens", "format", named("regular+session"), func(o *object.Object, b *base) {
-		var t2 sessionv2.Token
+		t2 := sessionTokenV2(attackerSigner) // wire-valid v2 token (issued by a stranger) next to the v1 token
 		o.SetSessionTokenV2(&t2)
 	})
 	legit("owner-zero", "format", named("regular"), func(o *object.Object, b *base) { o.SetOwner(user.ID{}) })
@@ -418,6 +448,33 @@ func buildMutations() []mutation {
 			s.SetValue(flip(s.Value(), 7))
 			p.SetSignature(&s)
 		})
+	})
+	legit("parent-header-changed-after-signing", "id", hasFullParent, func(o *object.Object, b *base) {
+		withParent(o, func(p *object.Object) { setAttr(p, "FileName", "evil.bin") })
+	})
+	legit("parent-payload-size-changed-after-signing", "id", and(hasFullParent, not(isEC)), func(o *object.Object, b *base) {
+		withParent(o, func(p *object.Object) { p.SetPayloadSize(p.PayloadSize() + 1) })
+	})
+	legit("parent-unsigned", "auth", hasFullParent, func(o *object.Object, b *base) {
+		withParent(o, func(p *object.Object) { p.SetSignature(nil) })
+	})
+	legit("parent-signature-key->attacker", "auth", hasFullParent, func(o *object.Object, b *base) {
+		withParent(o, func(p *object.Object) {
+			s := *p.Signature()
+			s.SetPublicKeyBytes(attackerKey.PublicKey().Bytes())
+			p.SetSignature(&s)
+		})
+	})
+	legit("parent-id-byte-and-signed-over-bogus-id", "id", hasFullParent, func(o *object.Object, b *base) {
+		withParent(o, func(p *object.Object) {
+			id := p.GetID()
+			id[9] ^= 1
+			p.SetID(id)
+			must(p.Sign(ownerSigner))
+		})
+	})
+	legit("parent-owner->attacker-resealed-by-owner", "auth", and(hasFullParent, not(isEC)), func(o *object.Object, b *base) {
+		withParent(o, func(p *object.Object) { p.SetOwner(attackerSigner.UserID()); resign(p, ownerSigner) })
 	})
 	legit("parent-signed-by-attacker", "auth", hasFullParent, func(o *object.Object, b *base) {
 		withParent(o, func(p *object.Object) { resign(p, attackerSigner) })
